@@ -447,7 +447,7 @@ func init() {
 		{"getByHashBody", handlerKernel(sv, "indirectIssuanceChainService.getByHash", "getByHashBody",
 			"(cacheFails cacheHit findFails hashBad : Bool)", "Nat × Bool × Bool", "let filled_ := false\n  ", "(0, false, filled_)",
 			Spec{Kind: "u64", Lazy: true, Inline: false, Ret: "statusstate", StateVars: []string{"filled_"}, Ignore: []string{"klog."},
-				Status:   map[string]int{"nil": 0, "chain": 1},
+				Status:   map[string]int{"nil": 0, "*": 1},
 				ErrCalls: map[string]string{"s.cache.Get": "cacheFails", "s.storage.FindByKey": "findFails"},
 				InitCond: map[string]string{"err := checkIssuanceChainHash(hash, chain) ; err != nil": "hashBad"},
 				AppendEffect: map[string]string{"stmt:go": "filled_ := true"},
@@ -455,16 +455,18 @@ func init() {
 		// add: (what is handed back: 0 nothing / 1 the hash, is-error, "storage.Add succeeded", "cache fill started")
 		{"addBody", handlerKernel(sv, "indirectIssuanceChainService.add", "addBody",
 			"(cacheFails cacheHit addFails : Bool)", "Nat × Bool × Bool × Bool", "let stored_ := false\n  let filled_ := false\n  ", "(0, false, stored_, filled_)",
-			Spec{Kind: "u64", Lazy: true, Ret: "statusstate", StateVars: []string{"stored_", "filled_"}, Ignore: []string{"klog."},
-				Status:   map[string]int{"nil": 0, "hash": 1},
-				ErrCalls: map[string]string{"s.storage.Add": "addFails|stored_ := (!addFails)"},
-				InitCond: map[string]string{"cachedChain, err := s.cache.Get(ctx, hash) ; err == nil && cachedChain != nil": "((!cacheFails) && cacheHit)"},
+			Spec{Kind: "u64", Lazy: true, Canon: true, Ret: "statusstate", StateVars: []string{"stored_", "filled_"}, Ignore: []string{"klog."},
+				Bind:     map[string]string{"issuanceChainHash": "hash"},
+				Status:   map[string]int{"nil": 0, "*": 1},
+				ErrCalls: map[string]string{"s.storage.Add": "addFails|stored_ := (!addFails)", "s.cache.Get": "cacheFails"},
+				IgnoreLHS: []string{"cachedChain"},
+				Repl:         map[string]string{"cachedChain != nil": "cacheHit", "err == nil": "(!cacheFails)"},
 				AppendEffect: map[string]string{"stmt:go": "filled_ := true"}})},
 		// FixLogLeaf: (returned nil, which layout was rewritten: 0 none / 1 PrecertChainEntryHash / 2 CertificateChainHash, "leaf.ExtraData was assigned")
 		{"fixLogLeafBody", handlerKernel(sv, "indirectIssuanceChainService.FixLogLeaf", "fixLogLeafBody",
 			"(leafNil isPCEH isCCH isPCE isCC hashNonEmpty lookupFails derBad derTrailing encFails : Bool)", "Bool × Nat × Bool", "let form_ := (0 : Nat)\n  let assigned_ := false\n  ", "(true, form_, assigned_)",
-			Spec{Kind: "u64", Lazy: true, Ret: "errboolstate", StateVars: []string{"form_", "assigned_"}, Ignore: []string{"klog."},
-				ErrCalls: map[string]string{"s.getByHash": "lookupFails", "tls.Marshal(precertChain": "encFails|form_ := (1 : Nat)", "tls.Marshal(certChain": "encFails|form_ := (2 : Nat)"},
+			Spec{Kind: "u64", Lazy: true, Inline: true, Ret: "errboolstate", StateVars: []string{"form_", "assigned_"}, Ignore: []string{"klog."},
+				ErrCalls: map[string]string{"s.getByHash": "lookupFails", "asn1.Unmarshal": "derBad", "tls.Marshal(precertChain": "encFails|form_ := (1 : Nat)", "tls.Marshal(certChain": "encFails|form_ := (2 : Nat)"},
 				InitCond: map[string]string{
 					"rest, err := tls.Unmarshal(leaf.ExtraData, &precertChainHash) ; err == nil && len(rest) == 0": "isPCEH",
 					"rest, err := tls.Unmarshal(leaf.ExtraData, &certChainHash) ; err == nil && len(rest) == 0":    "isCCH",
@@ -473,15 +475,16 @@ func init() {
 					"rest, err := asn1.Unmarshal(chainBytes, &chain) ; err != nil":                                  "derBad",
 					"rest, err := asn1.Unmarshal(chainBytes, &entries) ; err != nil":                                "derBad"},
 				AppendEffect: map[string]string{"stmt:leaf.ExtraData=extraData": "assigned_ := true"},
-				Repl: map[string]string{"leaf == nil": "leafNil", "len(rest) > 0": "derTrailing",
-					"len(precertChainHash.IssuanceChainHash) > 0": "hashNonEmpty", "len(certChainHash.IssuanceChainHash) > 0": "hashNonEmpty"}})},
+				Repl: map[string]string{"leaf == nil": "leafNil", "len(rest) > 0": "derTrailing", "len(hash) == 0": "(!hashNonEmpty)", "len(hash) > 0": "hashNonEmpty",
+					"len(precertChainHash.IssuanceChainHash) > 0": "hashNonEmpty", "len(certChainHash.IssuanceChainHash) > 0": "hashNonEmpty",
+					"len(precertChainHash.IssuanceChainHash) == 0": "(!hashNonEmpty)", "len(certChainHash.IssuanceChainHash) == 0": "(!hashNonEmpty)"}})},
 		// the external-storage BuildLogLeaf: (is-error, "the chain was handed to add")
 		{"indirectBuildBody", handlerKernel(sv, "indirectIssuanceChainService.BuildLogLeaf", "indirectBuildBody",
 			"(encodingFails derFails addFails leafFails : Bool)", "Nat × Bool × Bool", "let added_ := false\n  ", "(0, false, added_)",
-			Spec{Kind: "u64", Lazy: true, Ret: "statusstate", StateVars: []string{"added_"}, Ignore: []string{"klog."},
-				Status: map[string]int{"nil": 0, "leaf": 1},
+			Spec{Kind: "u64", Lazy: true, Canon: true, Ret: "statusstate", StateVars: []string{"added_"}, Ignore: []string{"klog."},
+				Status: map[string]int{"nil": 0, "*": 1},
 				ErrCalls: map[string]string{"asn1.Marshal": "derFails", "s.add": "addFails|added_ := (!addFails)", "util.BuildLogLeafWithChainHash": "leafFails"},
-				InitCond: map[string]string{"_, err := util.ExtraDataForChain(raw[0], raw[1:], isPrecert) ; err != nil": "encodingFails"}})},
+				InitCondByCall: map[string]string{".ExtraDataForChain": "encodingFails"}})},
 		{"directBuildBody", handlerKernel(sv, "directIssuanceChainService.BuildLogLeaf", "directBuildBody",
 			"(leafFails : Bool)", "Nat × Bool", "", "(0, false)",
 			Spec{Kind: "u64", Lazy: true, Ret: "statusstate", Ignore: []string{"klog."}, Status: map[string]int{"nil": 0, "leaf": 1},
